@@ -151,11 +151,14 @@ def check_scores(case, out):
         if cache is not RAISED:
             for rep in range(2):  # cold, then warm
                 for v in dag["nodes"]:
-                    a = out.call(f"{name}.cache.local_score", cache.local_score, v, list(model.predecessors(v)))
                     b = sc.local_score(v, list(model.predecessors(v)))
-                    out.evals += 1
-                    if a is not RAISED and not _close(float(a), float(b)):
-                        out.fail(f"{name}.cache.local_score:differs", f"{v}: {float(a)!r} vs {float(b)!r} (pass {rep}, max_size={case['cache_size']})")
+                    # asked twice in a row: the second answer is a cache hit even when the cache is so small that
+                    # every first request evicts something
+                    for ask in ("first", "again"):
+                        a = out.call(f"{name}.cache.local_score", cache.local_score, v, list(model.predecessors(v)))
+                        out.evals += 1
+                        if a is not RAISED and not _close(float(a), float(b)):
+                            out.fail(f"{name}.cache.local_score:differs", f"{v}: {float(a)!r} vs {float(b)!r} (pass {rep}, asked {ask}, max_size={case['cache_size']})")
             cs = out.call(f"{name}.cache.score", cache.score, model)
             out.evals += 1
             if cs is not RAISED and got is not RAISED and not _close(float(cs), float(got)):
